@@ -197,15 +197,23 @@ structure Fixes where
   tokClone : Bool := false
   /-- gotOffer: `replace` in a renegotiation of an existing stream pushes the close at once (C07 finding 3) -/
   f3 : Bool := false
+  /-- webclient.go `remove` deletes every occurrence of the permission, not only the first (391656f) -/
+  removeAll : Bool := false
   deriving Repr, BEq, DecidableEq, Inhabited
 
 /-- the repairs present in the tree the engine is compared with
 (P10 is in /repo since c983258) -/
 def currentFixes : Fixes :=
-  { p10 := true, p11 := true, p12 := true, p18 := true, p19 := true, offerNil := true, tokClone := true, f3 := true }
+  { p10 := true, p11 := true, p12 := true, p18 := true, p19 := true, offerNil := true, tokClone := true, f3 := true,
+    removeAll := true }
 
 def allFixes : Fixes :=
-  { p10 := true, p11 := true, p12 := true, p18 := true, p19 := true, offerNil := true, tokClone := true, f3 := true }
+  { p10 := true, p11 := true, p12 := true, p18 := true, p19 := true, offerNil := true, tokClone := true, f3 := true,
+    removeAll := true }
+
+/-- webclient.go `remove`, before (`removeS`: first occurrence) and after (`removeAllS`) the repair -/
+def removeFix (fx : Fixes) (h : Heap) (s : Slice) (v : String) : Heap × Slice :=
+  if fx.removeAll then removeAllS h s v else removeS h s v
 
 /-! ### the guard layer: handleClientMessage as a function to effects -/
 
@@ -1213,11 +1221,11 @@ def handleAction (w : World) (i : Nat) (a : Action) : World × Option CloseErr :
           if (c.group.bind w.group?).any (fun g => g.cfg.allowRecording) then some (addnewS h s "record")
           else some (h, s)
         else if kind = "unop" then
-          let (h, s) := removeS w.heap s "op"
-          some (removeS h s "record")
+          let (h, s) := removeFix w.fix w.heap s "op"
+          some (removeFix w.fix h s "record")
         else if kind = "present" then some (addnewS w.heap s "present")
-        else if kind = "unpresent" then some (removeS w.heap s "present")
-        else if kind = "shutup" then some (removeS w.heap s "message")
+        else if kind = "unpresent" then some (removeFix w.fix w.heap s "present")
+        else if kind = "shutup" then some (removeFix w.fix w.heap s "message")
         else if kind = "unshutup" then some (addnewS w.heap s "message")
         else none
       match upd with
